@@ -131,6 +131,9 @@ class TensorEval:
                     raise Unknown('yield outside a generator run')
                 self._yields[-1].append(self.ev(f, st.value.value, env) if st.value.value is not None else None)
                 continue
+            if isinstance(st, ast.Expr) and isinstance(st.value, ast.Call) and any(k.arg == 'out' for k in st.value.keywords):
+                self.ev(f, st.value, env)            # a call used for its effect on the `out=` buffer
+                continue
             if isinstance(st, ast.Expr):
                 c = st.value
                 if isinstance(c, ast.Call) and isinstance(c.func, ast.Attribute) and c.func.attr in ('append', 'extend') and isinstance(c.func.value, ast.Name) \
@@ -145,6 +148,8 @@ class TensorEval:
                 raise _Ret(self.ev(f, st.value, env) if st.value is not None else None)
             if isinstance(st, ast.For) and not st.orelse:
                 it = self.ev(f, st.iter, env)
+                if isinstance(it, np.ndarray) and it.dtype != object and it.ndim == 1:
+                    it = it.tolist()
                 if not isinstance(it, (range, list, tuple)) or len(it) > (4096 if self.numeric else 64):
                     raise Unknown(f'loop over `{norm(st.iter)[:40]}`')
                 for x in it:
@@ -224,7 +229,7 @@ class TensorEval:
                     if self.strict_if:
                         raise
                     continue            # warnings / logging about degenerate inputs (tests on symbolic cells)
-                if isinstance(c, (bool, int)) or c is None or (np is not None and isinstance(c, (np.bool_, np.integer))):
+                if isinstance(c, (bool, int, tuple, list, str, dict, range)) or c is None or (np is not None and isinstance(c, (np.bool_, np.integer))):
                     self.block(f, st.body if c else st.orelse, env)
                 continue
             if isinstance(st, ast.AugAssign) and isinstance(st.target, ast.Subscript):
@@ -317,6 +322,12 @@ class TensorEval:
             node_ = f.mod.assigns.get(e.id) if hasattr(f.mod, 'assigns') else None
             if isinstance(node_, (ast.Dict, ast.List, ast.Tuple, ast.Constant)):
                 return self.ev(f, node_, {})          # a module-level literal table (handlers by enum member, sizes, names)
+            if isinstance(node_, ast.Call) and norm(node_.func).split('.')[-1] in ('array', 'asarray') and node_.args:
+                try:
+                    lit_ = ast.literal_eval(node_.args[0])
+                    return np.array(lit_)                 # a module-level numeric table
+                except Exception:
+                    pass
             raise Unknown(f'name {e.id}')
         if isinstance(e, ast.Dict) and all(k is not None for k in e.keys):
             return {self.ev(f, k, env): self.ev(f, v, env) for k, v in zip(e.keys, e.values)}
@@ -367,6 +378,10 @@ class TensorEval:
             num = (int, float, np.integer, np.floating, np.bool_)
             if type(e.ops[0]) in ops and isinstance(l, num) and isinstance(r, num):
                 return bool(ops[type(e.ops[0])](l, r))
+            from .bitvec import BV as _BV
+            if isinstance(e.ops[0], (ast.NotEq, ast.Gt)) and isinstance(r, (int, np.integer)) and (isinstance(l, _BV) or (isinstance(l, np.ndarray) and l.dtype == object and l.size and isinstance(l.flat[0], _BV))):
+                # single-bit tests of bit-slicing code on provenance words: element-wise, the result keeps the provenance
+                return (l != r) if isinstance(l, _BV) else np.frompyfunc(lambda a_: a_ != int(r), 1, 1)(l)
             if type(e.ops[0]) in ops and (isinstance(l, np.ndarray) or isinstance(r, np.ndarray)) and all(not isinstance(x, np.ndarray) or x.dtype != object for x in (l, r)) \
                     and all(isinstance(x, (np.ndarray,) + num) for x in (l, r)):
                 return ops[type(e.ops[0])](l, r)
@@ -618,7 +633,11 @@ class TensorEval:
         if isinstance(a0, np.ndarray):
             if name in ('sum', 'nansum'):
                 ax = kw.get('axis', rest[0] if rest else None)
-                return a0.sum(axis=ax, keepdims=bool(kw.get('keepdims', False)))
+                res_ = a0.sum(axis=ax, keepdims=bool(kw.get('keepdims', False)))
+                if isinstance(kw.get('out'), np.ndarray):
+                    kw['out'][...] = res_              # the reduction written into the caller's buffer (a view writes through)
+                    return kw['out']
+                return res_
             if name in ('mean', 'nanmean'):
                 ax = kw.get('axis', rest[0] if rest else None)
                 n = a0.size if ax is None else a0.shape[ax]
